@@ -62,7 +62,96 @@ func progOpts() gen.ProgOpts {
 	return o
 }
 
+// genBufEdge draws a case in which the process dies while the log's 64 KiB
+// user-space buffer has been written out exactly once: with buffered sync modes
+// the file then ends at byte 65536 of the record stream, wherever that falls.
+// The sizes are chosen so that it falls inside, right behind or a few bytes
+// behind a record HEADER (7 bytes), the positions a generic program almost
+// never produces. The rest of the program runs after the recovery, in one or
+// two more process lifetimes.
+func genBufEdge(t *rapid.T) drive.CrashCase {
+	p := drive.Program{Keys: gen.Keys(t, 3, 10)}
+	p.Cfg = drive.Cfg{MemTableSize: 32 << 20, MaxMemTables: 2,
+		SyncMode:  rapid.IntRange(0, 1).Draw(t, "sync"),
+		SyncBytes: 1 << 20}
+	const bufSize = 64 * 1024
+	// the record whose header is to straddle the boundary starts at bufSize-7+d
+	d := rapid.IntRange(-9, 9).Draw(t, "edge_d")
+	target := bufSize - 7 + d
+	nk := len(p.Keys)
+	tag := uint32(1)
+	sum := 0
+	recPut := func(k, vlen int) int { return 7 + 1 + 8 + 4 + len(p.Keys[k]) + 4 + vlen }
+	recDel := func(k int) int { return 7 + 1 + 8 + 4 + len(p.Keys[k]) }
+	for {
+		k := rapid.IntRange(0, nk-1).Draw(t, "k")
+		if rapid.IntRange(0, 5).Draw(t, "del") == 0 {
+			if sum+recDel(k)+recPut(0, 0)+200 > target {
+				break
+			}
+			p.Steps = append(p.Steps, drive.Step{Op: "del", K: k})
+			sum += recDel(k)
+			continue
+		}
+		vlen := rapid.IntRange(1, 6000).Draw(t, "vlen")
+		if sum+recPut(k, vlen)+recPut(0, 0)+200 > target {
+			break
+		}
+		p.Steps = append(p.Steps, drive.Step{Op: "put", K: k, V: &drive.Val{Len: vlen, Tag: tag}})
+		tag++
+		sum += recPut(k, vlen)
+	}
+	// filler put: brings the stream to exactly target bytes
+	fk := rapid.IntRange(0, nk-1).Draw(t, "fk")
+	fill := target - sum - recPut(fk, 0)
+	for fill < 0 { // cannot happen with the 200-byte reserve unless keys are huge
+		fk = 0
+		fill = target - sum - recPut(fk, 0)
+		if fill < 0 {
+			p.Steps = p.Steps[:len(p.Steps)-1]
+			sum = 0
+			for _, s := range p.Steps {
+				if s.Op == "put" {
+					sum += recPut(s.K, s.V.Len)
+				} else {
+					sum += recDel(s.K)
+				}
+			}
+			fill = target - sum - recPut(fk, 0)
+		}
+	}
+	p.Steps = append(p.Steps, drive.Step{Op: "put", K: fk, V: &drive.Val{Len: fill, Tag: tag}})
+	tag++
+	// the straddling record and 0-3 more small writes that stay in the buffer
+	for i, n := 0, rapid.IntRange(1, 4).Draw(t, "after"); i < n; i++ {
+		k := rapid.IntRange(0, nk-1).Draw(t, "ak")
+		p.Steps = append(p.Steps, drive.Step{Op: "put", K: k, V: &drive.Val{Len: rapid.IntRange(1, 300).Draw(t, "avlen"), Tag: tag}})
+		tag++
+	}
+	cut := len(p.Steps)
+	// after the recovery: ordinary small writes
+	for i, n := 0, rapid.IntRange(2, 12).Draw(t, "post"); i < n; i++ {
+		k := rapid.IntRange(0, nk-1).Draw(t, "pk")
+		if rapid.IntRange(0, 3).Draw(t, "pdel") == 0 {
+			p.Steps = append(p.Steps, drive.Step{Op: "del", K: k})
+		} else {
+			p.Steps = append(p.Steps, drive.Step{Op: "put", K: k, V: &drive.Val{Len: rapid.IntRange(1, 300).Draw(t, "pvlen"), Tag: tag}})
+			tag++
+		}
+	}
+	rounds := []drive.CrashRound{{To: cut, Abandon: true}}
+	if rapid.Bool().Draw(t, "three") {
+		mid := rapid.IntRange(cut, len(p.Steps)).Draw(t, "mid")
+		rounds = append(rounds, drive.CrashRound{To: mid, Clean: rapid.Bool().Draw(t, "clean2"), SelA: rapid.Uint32().Draw(t, "selA"), SelB: rapid.Uint32().Draw(t, "selB")})
+	}
+	rounds = append(rounds, drive.CrashRound{To: len(p.Steps), Clean: true})
+	return drive.CrashCase{Program: p, Rounds: rounds, ChildVerifies: rapid.Bool().Draw(t, "childverifies")}
+}
+
 func genCase(t *rapid.T) drive.CrashCase {
+	if rapid.IntRange(0, 7).Draw(t, "bufedge") == 0 {
+		return genBufEdge(t)
+	}
 	o := progOpts()
 	p := gen.Program(t, o)
 	// bias towards configurations in which the log outgrows the memtable budget
@@ -101,6 +190,9 @@ func TestProp(t *testing.T) {
 		}
 		if len(c.Rounds) > 1 {
 			classes = append(classes, "multi_round")
+		}
+		if c.Rounds[0].Abandon {
+			classes = append(classes, "log_buffer_boundary_at_record_header")
 		}
 		if c.Program.Cfg.SyncMode == 2 {
 			classes = append(classes, "sync_immediate")
